@@ -105,7 +105,8 @@ def gen(rng: Rng, tier, i):
             r = rng.fork(("a", j))
             n = r.pick([1, 2, 3, 5, 7, 8, 12, 27, 36, 100, r.randrange(1, 401)])
             b = r.pick([1, 2, 3, n, n + 1, n + 3, max(1, n - 1), None, r.randrange(1, n + 4)])
-            cfgs.append({"n": n, "b": b, "shuffle": r.chance(0.8), "ratio": r.pick(RATIOS),
+            cfgs.append({"n": n, "b": b, "shuffle": r.chance(0.8),
+                         "ratio": r.pick(RATIOS) if r.chance(0.5) else round(r.uniform(0.0, 0.999), 4),
                          "mode": r.pick(["grid", "random"]), "epochs": r.pick([1, 2, 4]),
                          "kinds": [r.pick(simsched.PERM_KINDS) for _ in range(5)],
                          "seed": r.randrange(10 ** 6),
